@@ -69,6 +69,7 @@ type InputAttempt struct {
 type admActorState struct {
 	Plan       AdmActor
 	Pub        *actors.RtmpClient
+	Rtsp       *actors.RtspClient // rtsp_pub: signalling only (video-only SDP without parameter sets, no RTP)
 	Sub        *ConsState
 	Custom     logic.ICustomizePubSessionContext
 	CustomErr  error
@@ -232,6 +233,19 @@ func (ar *AdmRun) observe(k *sim.Kernel) {
 				at.RelRet = step
 			}
 		}
+		if a.Rtsp != nil {
+			if at := a.Attempt; at != nil && !at.Known {
+				// lal admits an RTSP publisher when it answers ANNOUNCE
+				if a.Rtsp.AnnounceOK {
+					at.Known, at.Accepted, at.RetStep = true, true, step
+				} else if a.Rtsp.Closed && !a.Stopped && !a.Kicked {
+					at.Known, at.Accepted, at.RetStep = true, false, step
+				}
+			}
+			if at := a.Attempt; at != nil && at.RelCall >= 0 && at.RelRet < 0 && a.Rtsp.Closed && a.Rtsp.Conn.Idle2() {
+				at.RelRet = step
+			}
+		}
 		if a.Sub != nil {
 			if a.Sub.Rtmp != nil {
 				a.Sub.Rtmp.Observe()
@@ -334,6 +348,13 @@ func (ar *AdmRun) exec(k *sim.Kernel, op AdmOp) {
 			a.Pub.Connect(PortRtmp, 10+op.Actor)
 			a.Attempt = ar.newAttempt("rtmp_pub", a.Plan.Stream, op.Actor+1, k)
 			a.Attempt.Remote = a.Pub.Conn.RemoteAddr().String()
+		case "rtsp_pub":
+			a.Rtsp = actors.NewRtspClient(k, fmt.Sprintf("pub%d", op.Actor), "pub", fmt.Sprintf("rtsp://127.0.0.1:%d/live/%s", PortRtsp, name), true)
+			a.Rtsp.Sdp = "v=0\r\no=- 0 0 IN IP4 127.0.0.1\r\ns=No Name\r\nc=IN IP4 127.0.0.1\r\nt=0 0\r\nm=video 0 RTP/AVP 96\r\na=rtpmap:96 H264/90000\r\na=fmtp:96 packetization-mode=1\r\na=control:streamid=0\r\n"
+			a.Rtsp.Tracks = actors.ParseSdpTracks(a.Rtsp.Sdp)
+			a.Rtsp.Connect(PortRtsp, 10+op.Actor)
+			a.Attempt = ar.newAttempt("rtsp_pub", a.Plan.Stream, op.Actor+1, k)
+			a.Attempt.Remote = a.Rtsp.Conn.RemoteAddr().String()
 		case "custom_pub":
 			at := ar.newAttempt("custom_pub", a.Plan.Stream, op.Actor+1, k)
 			a.Attempt = at
@@ -411,6 +432,8 @@ func (ar *AdmRun) exec(k *sim.Kernel, op AdmOp) {
 		switch {
 		case a.Pub != nil:
 			a.Pub.Leave(op.Reset)
+		case a.Rtsp != nil:
+			a.Rtsp.Leave(op.Reset)
 		case a.Plan.Kind == "custom_pub":
 			if a.Custom != nil {
 				c := a.Custom
@@ -439,6 +462,8 @@ func (ar *AdmRun) exec(k *sim.Kernel, op AdmOp) {
 		switch {
 		case a.Pub != nil:
 			conn = a.Pub.Conn
+		case a.Rtsp != nil:
+			conn = a.Rtsp.Conn
 		case a.Sub != nil && a.Sub.Rtmp != nil:
 			conn = a.Sub.Rtmp.Conn
 		case a.Sub != nil && a.Sub.Http != nil:
